@@ -246,6 +246,13 @@ def gen(rng, tier):
     parent = G.gen_net(rng, n_inputs=(1, 4), n_gates=(1, 6), types=G.swarm_types(rng), max_arity=3, constants=0.2,
                        name_style="plain", name="parent")
     mp = {n: f"p{i}" for i, n in enumerate(parent["nodes"])}
+    if rng.random() < 0.3:
+        # parent nets that merely share a prefix with an instance name used later (u_en next to instance u)
+        pio = [n for n, v in parent["nodes"].items() if v[0] == "input" or v[2]]
+        for n in rng.sample(pio, min(len(pio), rng.randint(1, 2))):
+            new = f"{rng.choice(('u', 'v', 'w', 'm'))}_{rng.choice(('en', 'ok', 'sel', 'rdy'))}"
+            if new not in mp.values():
+                mp[n] = new
     parent = G.rename(parent, mp)
     children = [gen_child(rng, i, allow_nested=True) for i in range(rng.randint(1, 3))]
     R = copy.deepcopy(parent)
@@ -299,8 +306,10 @@ def gen(rng, tier):
             ins, outs = child_io(children[ci])
             inst = rng.choice(insts)
             if not invalid:
-                free_insts = [i for i in insts if not any(n.startswith(i + "_") for n in R["nodes"]) and
-                              not any(b.startswith(i + "_") for b in R["bbs"])]
+                # (only the names the composition creates must be free: a parent net called <inst>_en is an ordinary net)
+                free_insts = [i for i in insts if not any(f"{i}_{n}" in R["nodes"] for n in children[ci]["nodes"]) and
+                              not any(f"{i}_{b}" in R["bbs"] for b in children[ci]["bbs"]) and
+                              not any(n.startswith(i + "_") and R["nodes"][n][0] in ("bb_input", "bb_output") for n in R["nodes"])]
                 if not free_insts:
                     continue
                 inst = rng.choice(free_insts)
